@@ -451,6 +451,24 @@ fn point_case(ctx: &mut Ctx, wl: &str, case: u64, rng: &mut Rng) {
                 j.judge("higher_correction", e / sc, 1e-9 * cz * cz, json!({"got": eta, "want": want}));
             }
         }
+        // evaluating a correction reads the stored derivatives, it does not own them: gradient and Hessian are
+        // bit for bit what they were, and a second correction at the same scaling point (other directions) is
+        // as good as the first
+        let after = obj.state();
+        if after.grad.iter().zip(&st.grad).any(|(a, b)| a.to_bits() != b.to_bits()) || after.h_dual.iter().zip(&st.h_dual).any(|(a, b)| a.to_bits() != b.to_bits()) {
+            j.fail("stored_derivatives_changed_by_higher_correction", json!({"H_before": st.h_dual, "H_after": after.h_dual}));
+        }
+        let ds2: Vec<f64> = (0..n).map(|i| rng.normal() / zref[i]).collect();
+        let v2: Vec<f64> = (0..n).map(|i| rng.normal() * zref[i]).collect();
+        if let Some(eta) = obj.higher_correction(&ds2, &v2) {
+            if let Some(u) = solve(n, &h, &ds2) {
+                let t = dz.third_contract_scaled(&u, &v2, &zref);
+                let want: Vec<f64> = t.iter().map(|x| 0.5 * x).collect();
+                let e = (0..n).fold(0.0f64, |m, i| m.max(((eta[i] - want[i]) * zref[i]).abs()));
+                let sc = (0..n).fold(0.0f64, |m, i| m.max((want[i] * zref[i]).abs())).max(1e-300);
+                j.judge("higher_correction:second_call_at_the_same_point", e / sc, 1e-9 * cz * cz, json!({"got": eta, "want": want}));
+            }
+        }
     }
 
     // (6) primal-dual scaling
